@@ -14,7 +14,7 @@ CHECKS = {
    text="Random 120-operation sequences over seven key kinds with equal bits and two resource types sharing state types are compared with one HashMap per key kind and one slot per resource type after every operation; a build leg checks correct values, no re-execution on a foreign key type's change, re-execution on the own key's change."),
  "C15": dict(cat="exploration", ref="5 (C15)", tech="runtime monitor over type families with identical bits/hash/debug text used as tasks and resources: == / Hash on &dyn KeyObj for all pairs; executions, outputs and store nodes per (type, value) in generated build sequences; Miri shard in thorough",
    text="Newtypes, tuples and Box/Rc/Arc wrappers of tasks with the same value (and map keys K1/K2 with the same number) are required in random sessions; outputs must equal the per-type formula, the store dump must hold exactly one node per distinct (type, value), no cross-type overlap or hidden-dependency abort may occur, and repeating a session runs nothing."),
- "C16": dict(cat="exploration", ref="5 (C16)", tech="runtime monitor: digest of the complete event log (5 observers, 23 tracker callbacks) of each history compared across in-process replays and replays in 16 child processes with fresh hash seeds; Miri shards with different seeds in thorough",
+ "C16": dict(cat="exploration", ref="5 (C16)", tech="runtime monitor: digest of the complete event log (5 observers, 23 tracker callbacks) of each history compared across in-process replays and replays in 16 child processes with fresh hash seeds; file-backed histories with directories read through HashChecker replayed on fresh instances; Miri shards with different seeds in thorough",
    text="Each history over a wide program is replayed twice in-process with unrelated instances in between and four more times spread over separate processes; every digest of the totally ordered event log must be identical."),
  "C05": dict(cat="exploration", ref="5 (C05), 6 (K4)", tech="fault injection of hidden reads/writes into well-formed programs + runtime monitors: online legality of every returning read / entered write against the shadow, abort-before-modification, final store structure, second oracle from the from-scratch interpreter",
    text="Hidden reads and writes are injected value-conditionally at random tasks and positions so that they become live in some session of a history (writer first, reader first, same or different sessions, top-down and bottom-up). A read that returns, or a write function that is entered, while the shadow of recorded dependencies says reader and writer are unrelated is a violation; so is a value returned where the from-scratch interpreter hits a hidden dependency. The clause about the final store structure is known not to hold (K4)."),
@@ -22,7 +22,7 @@ CHECKS = {
    text="A second writer is injected value-conditionally; any write that proceeds while another task is the recorded writer is a violation, as is an overlap abort after the write function ran, two write edges in the dump, or a value returned where the reference interpreter finds an overlap. Well-formed programs with writers re-executed in every mode must never be reported."),
  "C07": dict(cat="exploration", ref="5 (C07)", tech="fault injection of back requires (cycles of length 1..n, value-conditional) + runtime monitors on the task-side execution stack, step bound, second oracle from the from-scratch interpreter; rank invariant through the store dump",
    text="Requires of earlier or the same task are injected; a task entered while on the execution stack, a require returning a value for a task on the stack, exceeding the step bound, or a returned value where the reference interpreter closes a cycle are violations; the store's topological ranks are checked at every quiescent point."),
- "C19": dict(cat="fault_enumeration", ref="5 (C19)", tech="crash-point enumeration (panic at every task operation k of a session) and injected diagnosed violations/user panics, each followed by further sessions on the same instance under all monitors; panic classification; Miri shard in thorough",
+ "C19": dict(cat="fault_enumeration", ref="5 (C19), 6 (K5)", tech="crash-point enumeration (panic at every task operation k of a session) and injected diagnosed violations/user panics, each followed by further sessions on the same instance - and, for every other crash point, by a retry through the same still-open Session - under all monitors (after an abort the findings of the C01/C08/C20 monitors count for C19); panic classification; K5 classifier; Miri shard in thorough",
    text="For each chosen session every task operation k is made to panic in turn; after the caught abort the rest of the history must return from-scratch results (static-role programs: no abort at all). Injected violations and task panics are followed by sessions with the cause kept or removed. Any panic that is not a diagnosis or the injected one (BUG..., unwrap/index panics inside /repo) is a violation."),
  "C01": dict(cat="exploration", ref="5 (C01)", tech="runtime monitor: differential check of every Session::require result and of resource contents against a from-scratch reference interpreter, over generated programs x states x top-down histories (random, exhaustive small-scope, file-backed slice); Miri shard in thorough",
    text="Thousands (thorough: hundreds of thousands) of generated task programs with value-dependent structure are driven through histories of top-down sessions and external changes on one real Pie instance; each returned output and the resource contents after each session are compared with a from-scratch interpreter that shares no code with pie (thorough: also with a fresh Pie). Held on the executions listed in the evidence."),
@@ -32,7 +32,7 @@ CHECKS = {
    text="After each bottom-up build that was told about every pending change, a probe requires all known tasks: nothing may execute and all outputs/resources must equal the from-scratch reference. Pure histories have no suppression; in mixed histories only executions explained by the recorded finding K1 are tolerated (and counted)."),
  "C04": dict(cat="exploration", ref="5 (C04)", tech="runtime monitor over bottom-up builds: once, justified by a checker verdict, queue order vs transitive requires in the shadow, scheduled => executed; cross-checked with Tracker::schedule_task",
    text="Each bottom-up build's event window is checked for multiplicity, justification (new task or inconsistent verdict earlier in the build), dependency order of scheduled tasks at every execution start, and completion of the queue, over queues of up to ~10 tasks including require-of-scheduled-task during execution and early cut-off."),
- "C08": dict(cat="exploration", ref="5 (C08), 6 (K2)", tech="runtime monitor: guarded read-only store dump compared with a shadow of declared dependencies at every quiescent point; leftovers detected at check time",
+ "C08": dict(cat="exploration", ref="5 (C08), 6 (K2)", tech="runtime monitor: guarded read-only store dump compared with a shadow of declared dependencies at every quiescent point, including after aborted builds; leftovers detected at check time",
    text="After every session the hook's dump of the dependency store (edges in order, kinds, cloned checker and stamp objects, outputs) must equal what the task-side and checker-side log says the latest execution of each task declared."),
  "C09": dict(cat="exploration", ref="5 (C09)", tech="runtime monitor: exact user-visible call pattern of Resource/ResourceChecker/OutputChecker calls per context operation, with reader/writer serial numbers and stamps matched back at check time",
    text="For each read/write/written_to/require the log must show exactly the documented sequence on the very reader/writer object, and every later validation must hand back the creating checker value and stamp; verdict use (inconsistent => re-executed next, all consistent => reused) is asserted."),
